@@ -395,7 +395,7 @@ def _verify_session(sim, plan, ep, peer, L):
         sim.violation("C09.R3", "data message on the new connection was not delivered (stale bytes or wedged "
                       "receive path)", sig=_hang_sig(sim, "C09.R3", "not-delivered"))
     got = ep.received[n_before]
-    if got[1:] != (0xABCD01, 10, 3, False, body) or len(ep.received) != n_before + 1:
+    if got[1:6] != (0xABCD01, 10, 3, False, body) or len(ep.received) != n_before + 1:
         sim.violation("C09.R3", f"first message decoded on the new connection is not the first one sent: {got[1:5]}",
                       sig="C09.R3|wrong-first-frame")
 
